@@ -2,8 +2,9 @@
    Model: CL/*.v (shared pool model) + CLR/*.v (reward bookkeeping); proofs: C08/*.v.  See C08/STATUS.md. *)
 From Coq Require Import ZArith List Bool Lia.
 Import ListNotations.
-From Osmo Require Import CL.CLPool CL.CLSwap CL.CLStep CLR.Accum CLR.Rewards CLR.RSwap CLR.RStep
-  C08.Proj C08.Telescope C08.View C08.Static C08.Ops C08.OpInside C08.SwapTrace C08.Crux C08.Check.
+From Osmo Require Import CL.CLPool CL.CLSwap CL.CLStep CLR.Accum CLR.Rewards CLR.RSwap CLR.RStep C07.LP
+  C08.Proj C08.Telescope C08.View C08.Static C08.Ops C08.OpInside C08.SwapTrace C08.Crux C08.Check
+  C08.Claim C08.Conseq C08.Frame C08.Never C08.SwapWf C08.Dom C08.StaticOk C08.Final.
 Open Scope Z_scope.
 
 (* ---- the reward model extends the shared pool model conservatively ---- *)
@@ -103,3 +104,90 @@ Proof.
   split; [apply hist_ok_b_ok; vm_compute; reflexivity|].
   split; vm_compute; reflexivity.
 Qed.
+
+(* ==== the side conditions discharged: invariants of all reachable states ==== *)
+Theorem C08_invariants_reachable : forall sp spf ssc isc users t ops, 0 < sp -> 0 <= spf <= 500000000000000000 ->
+  RInv (rrun (rinit sp spf ssc isc users t) ops).
+Proof. intros. apply rinv_run. apply rinv_init; assumption. Qed.
+Print Assumptions C08_invariants_reachable.
+
+(* every executed swap, in every reachable state, has a well-formed trace for every component (rests on C07's swap-loop invariant) *)
+Theorem C08_reachable_swap_trace_wf : forall sp spf ssc isc users t ops k o rs' r,
+  0 < sp -> 0 <= spf <= 500000000000000000 ->
+  let rs := rrun (rinit sp spf ssc isc users t) ops in
+  rhandler rs o = Some (rs', r) -> is_swap o = true -> evs_wf (rview k rs) (op_trace k rs o).
+Proof. exact reachable_swap_wf. Qed.
+Print Assumptions C08_reachable_swap_trace_wf.
+
+(* GROWTH_INSIDE_TELESCOPES, FULL: no side conditions beyond "the position stays open" *)
+Theorem C08_growth_inside_telescopes_full : forall sp spf ssc isc users t pre ops k id l u,
+  0 < sp -> 0 <= spf <= 500000000000000000 ->
+  let rs := rrun (rinit sp spf ssc isc users t) pre in
+  live_through rs ops id l u ->
+  a_inside (rview k (rrun rs ops)) l u = a_inside (rview k rs) l u + hist_growth k rs ops l u.
+Proof. exact growth_inside_telescopes_reachable. Qed.
+Print Assumptions C08_growth_inside_telescopes_full.
+
+Example C08_growth_inside_telescopes_full_nonvacuous :
+  live_through ex_rs0 ex_ops 2 1000 3000 /\ 0 < hist_growth (CS true) ex_rs0 ex_ops 1000 3000.
+Proof.
+  split; [|vm_compute; reflexivity].
+  unfold live_through, ex_ops. repeat split; (eexists; split; [vm_compute; reflexivity|split; reflexivity]).
+Qed.
+
+(* ==== the claim formula and its consequences ==== *)
+Theorem C08_claimable_spread_formula : forall w sc cur lo hi id w' c,
+  prepare_claimable_spread w sc cur lo hi id = Some (w', c) ->
+  exists r, acc_get (rw_spread w) id = Some r /\
+    forall d, let g := a_inside (view (CS d) w cur dc0) lo hi - dsel d (ar_snap r) in
+      0 <= g /\
+      pr_sel d c = (if sc =? Base.DecModel.P18 then claim_scaled (dsel d (ar_unclaimed r)) g (ar_shares r)
+                    else unscale sc (claim_scaled (dsel d (ar_unclaimed r)) g (ar_shares r))).
+Proof. exact claimable_spread_formula. Qed.
+Print Assumptions C08_claimable_spread_formula.
+
+Theorem C08_identical_positions_identical_rewards : forall w sc cur lo hi id1 id2 w1 c1 w2 c2 r,
+  prepare_claimable_spread w sc cur lo hi id1 = Some (w1, c1) ->
+  prepare_claimable_spread w sc cur lo hi id2 = Some (w2, c2) ->
+  acc_get (rw_spread w) id1 = Some r -> acc_get (rw_spread w) id2 = Some r -> c1 = c2.
+Proof. exact identical_positions_identical_spread_rewards. Qed.
+Print Assumptions C08_identical_positions_identical_rewards.
+
+Theorem C08_k_times_liquidity : forall sc g sh k, sc = Base.DecModel.P18 \/ sc = big_scaling -> 0 <= g -> 0 <= sh -> 1 <= k <= Base.DecModel.P18 ->
+  let reward s := if sc =? Base.DecModel.P18 then claim_scaled 0 g s else unscale sc (claim_scaled 0 g s) in
+  -1 <= reward (k * sh) - k * reward sh <= k.
+Proof. exact k_times_liquidity. Qed.
+Print Assumptions C08_k_times_liquidity.
+Example C08_k_times_liquidity_nonvacuous :
+  claim_scaled 0 46537410754407684560993611493051731169 (3 * 21488088481701515466327046914)
+  - 3 * claim_scaled 0 46537410754407684560993611493051731169 21488088481701515466327046914 = 2.
+Proof. vm_compute. reflexivity. Qed.
+
+Theorem C08_unmet_uptime_not_paid : forall ups outs uts id age scaling ups' col forf byup,
+  claim_uptimes ups outs uts id age scaling = Some (ups', col, forf, byup) ->
+  col = sum_sel (fun ut => ut <=? age) uts (uptime_coins ups outs id scaling) /\
+  forf = sum_sel (fun ut => age <? ut) uts (uptime_coins ups outs id scaling).
+Proof. exact unmet_uptime_not_paid. Qed.
+Print Assumptions C08_unmet_uptime_not_paid.
+
+(* NEVER_IN_RANGE_EARNS_ZERO (spread rewards) over histories, side conditions discharged *)
+Theorem C08_never_in_range_earns_zero : forall ops rs id l u c, RInv rs -> live_through rs ops id l u -> hist_outside rs ops l u ->
+  zero_rec rs id l u -> claimable_spread (rrun rs ops) id = Some c -> c = (0, 0).
+Proof. exact never_in_range_earns_zero_live. Qed.
+Print Assumptions C08_never_in_range_earns_zero.
+
+Theorem C08_new_position_claims_nothing : forall rs owner a0 a1 m0 m1 lo hi rs' c, RInv rs ->
+  r_create rs owner a0 a1 m0 m1 lo hi = Some (rs', c) -> acc_get (rw_spread (r_rw rs)) (cr_id c) = None ->
+  zero_rec rs' (cr_id c) (cr_lower c) (cr_upper c).
+Proof. exact create_zero_rec. Qed.
+Print Assumptions C08_new_position_claims_nothing.
+
+(* What is NOT proved (kept as definitions so that the gap is visible):
+   - the uptime-accumulator analogue of C08_never_in_range_earns_zero and of the claim formula (the proof would repeat
+     C08/Never.v for upd_uptime_accs / claim_uptimes; the telescoping theorem itself covers all 14 components);
+   - total_claimable_le_paid / shortfall_bounded: the conservation sum over positions (see C01) *)
+Definition C08_total_claimable_le_paid_full : Prop :=
+  forall sp spf ssc isc users t ops, 0 < sp -> 0 <= spf <= 500000000000000000 ->
+    let rs := rrun (rinit sp spf ssc isc users t) ops in
+    forall d, fold_right (fun p acc => acc + match claimable_spread rs (ps_id p) with Some c => pr_sel d c | None => 0 end) 0 (s_pos (r_base rs))
+              <= pr_sel d (b_spread (s_bank (r_base rs))).
